@@ -531,3 +531,26 @@ v("c06-abort-callback-truthiness", "C06", "ABORT-CALLBACK", E + "incremental/com
 v("c06-close-after-handover", "C06", "HANDOVER-OWNER", E + "executor.py",
   "            completed_results[index] = await completed_results[index]\n",
   "            try:\n                completed_results[index] = await completed_results[index]\n            except Exception:\n                if early_return is not None:\n                    with suppress_exceptions:\n                        await early_return()\n                raise\n")
+
+# -- round 4: C07 / C02 -------------------------------------------------------------------------------------
+v("c07-source-args-without-fragment-scope", "C07", "SCOPE-THREAD", E + "execute.py",
+  "            field_details_list[0].fragment_variable_values,\n            executor.hide_suggestions,\n",
+  "            hide_suggestions=executor.hide_suggestions,\n")
+v("c07-source-resolver-falls-back-to-field-resolver", "C07", "OPTION-INDEPENDENT", E + "executor.py",
+  "            subscribe_field_resolver or default_field_resolver,\n", "            subscribe_field_resolver or field_resolver or default_field_resolver,\n")
+v("c07-source-resolver-default-in-local", "C07", "OPTION-INDEPENDENT", E + "executor.py",
+  "            subscribe_field_resolver or default_field_resolver,\n", "            source_resolver,\n", expect="silent",
+  extra_edits=[{"file": E + "executor.py", "old": "        return cls(\n            schema,\n            fragment_definitions,\n",
+                "new": "        source_resolver = subscribe_field_resolver\n        if source_resolver is None:\n            source_resolver = default_field_resolver\n        return cls(\n            schema,\n            fragment_definitions,\n"}])
+v("c02-singleton-list-drops-scopes", "C02", "SCOPE-THREAD", U + "coerce_input_value.py",
+  "            item_value = coerce_input_literal(\n                value_node,\n                item_type,\n                variable_values,\n                fragment_variable_values,\n            )\n",
+  "            item_value = coerce_input_literal(value_node, item_type)\n")
+v("c02-unfix-stream-fragment-variables", "C02", "SCOPE-THREAD", E + "executor.py",
+  "            self.variable_values,\n            first_field_details.fragment_variable_values,\n        )\n\n        if not stream or",
+  "            self.variable_values,\n        )\n\n        if not stream or")
+v("c02-default-memo-keyed-by-type-text", "C02", "ATTR-MEMO", U + "coerce_input_value.py",
+  "or default_input._memoized_type is not type_  # noqa: SLF001", "or default_input._memoized_type != str(type_)  # noqa: SLF001",
+  extra_edits=[{"file": U + "coerce_input_value.py", "old": "            default_input._memoized_type = type_  # noqa: SLF001", "new": "            default_input._memoized_type = str(type_)  # noqa: SLF001"}])
+v("c02-leaf-fast-path-misses-nonnull-list", "C02", "NONNULL-INVARIANT", E + "executor.py",
+  "        complete_list_item_value = self.complete_list_item_value\n        complete_awaitable_list_item_value = self.complete_awaitable_list_item_value\n        completed_results: list[Any] = []\n        append_completed = completed_results.append\n        awaitable_indices: list[int] = []\n        append_awaitable = awaitable_indices.append\n        stream_usage = self.get_stream_usage(field_details_list, path)\n        iterator = iter(items)",
+  "        complete_list_item_value = (\n            (lambda item, results, *_a: results.append(self.complete_leaf_value(get_named_type(item_type), item)) or False)\n            if is_leaf_type(get_named_type(item_type)) and not is_list_type(item_type)\n            else self.complete_list_item_value\n        )\n        complete_awaitable_list_item_value = self.complete_awaitable_list_item_value\n        completed_results: list[Any] = []\n        append_completed = completed_results.append\n        awaitable_indices: list[int] = []\n        append_awaitable = awaitable_indices.append\n        stream_usage = self.get_stream_usage(field_details_list, path)\n        iterator = iter(items)")
